@@ -14,13 +14,20 @@
 
    Outcomes other than a list of problems:
      SPanic           a panic of the Rust code: the usize overflow of choose_fresh_global_variables
-                      (F11), or a panic inside a CLASSIC rewrite (hand-built trees only);
-     SNonterminating  a fixpoint loop did not stop.  The pre-gamma loop uses the fuel
-                      [simplify_fuel f] = mu f + 1, which always suffices (C18_term_ht), so the
-                      answer never comes from there.  Termination of the post-gamma loop
-                      (INTUITIONISTIC ++ HT ++ CLASSIC) is NOT proved: the model runs it for at most
-                      [classic_fuel] = 64 further passes after the first one and answers
-                      SNonterminating beyond; the harness applies the same bound to the real loop.
+                      (F11), or a panic inside a CLASSIC rewrite (hand-built trees only: never on
+                      tau*/mu output, C03_panic_only_overflow);
+     SNonterminating  the fuel of a fixpoint loop was exhausted - A FUEL ARTEFACT, never a
+                      behaviour of the code: both loops terminate (C18_term_ht, C18_term_cls).
+                      The pre-gamma loop uses the fuel [simplify_fuel f] = mu f + 1, which always
+                      suffices, so the answer never comes from there.  The post-gamma loop
+                      (INTUITIONISTIC ++ HT ++ CLASSIC) is run for at most [fuel] further passes
+                      after the first one; [strong_decompose_full_fuel fuel] is the model with
+                      that parameter, [strong_decompose_full] its executable instance at
+                      [classic_fuel] = 64 (what is extracted and compared with the code; the
+                      harness applies the same bound to the real loop).  Proofs/StrongFullOk.v:
+                      an SOk / SPanic answer is the same for every larger fuel
+                      (strong_decompose_full_fuel_mono) and for every task there is a fuel from
+                      which the answer is never SNonterminating (C03_never_nonterminating).
    The first failure in the order above wins (left before right, earlier stage before later). *)
 From Coq Require Import List String.
 From Anthem Require Import Syntax.Fol Syntax.Asp Model.Apply Model.Gamma Model.Break Model.Problem
@@ -67,18 +74,19 @@ Definition simp_ht_full (f : formula) : sresult formula :=
   | None => SNonterminating
   end.
 
-(* f.apply_fixpoint(&mut portfolio), post-gamma *)
-Definition simp_classic_full (f : formula) : sresult formula :=
-  match StrategyCls.apply_fixpoint_opt classic_fuel (StrategyCls.compose_opt FULL_CLASSIC_opt) f with
+(* f.apply_fixpoint(&mut portfolio), post-gamma, with [fuel] further passes after the first *)
+Definition simp_classic_full_fuel (fuel : nat) (f : formula) : sresult formula :=
+  match StrategyCls.apply_fixpoint_opt fuel (StrategyCls.compose_opt FULL_CLASSIC_opt) f with
   | StrategyCls.RDone g => SOk g
   | StrategyCls.RPanic => SPanic
   | StrategyCls.RNonterminating => SNonterminating
   end.
+Definition simp_classic_full : formula -> sresult formula := simp_classic_full_fuel classic_fuel.
 
 Definition stage (on : bool) (f : formula -> sresult formula) (t : theory) : sresult theory :=
   if on then smap f t else SOk t.
 
-Definition strong_decompose_full (t : strong_task) : sresult (list problem) :=
+Definition strong_decompose_full_fuel (fuel : nat) (t : strong_task) : sresult (list problem) :=
   let ta := transition_axioms (st_left t) (st_right t) in
   sbind (repr_full (st_repr t) (st_left t)) (fun l0 =>
   sbind (repr_full (st_repr t) (st_right t)) (fun r0 =>
@@ -86,10 +94,14 @@ Definition strong_decompose_full (t : strong_task) : sresult (list problem) :=
   sbind (stage (st_simplify t) simp_ht_full r0) (fun r1 =>
   let l2 := gamma_theory l1 in
   let r2 := gamma_theory r1 in
-  sbind (stage (st_simplify t) simp_classic_full l2) (fun l3 =>
-  sbind (stage (st_simplify t) simp_classic_full r2) (fun r3 =>
+  sbind (stage (st_simplify t) (simp_classic_full_fuel fuel) l2) (fun l3 =>
+  sbind (stage (st_simplify t) (simp_classic_full_fuel fuel) r2) (fun r3 =>
   let l4 := if st_break t then break_equivalences_theory l3 else l3 in
   let r4 := if st_break t then break_equivalences_theory r3 else r3 in
   SOk (strong_assemble ta l4 r4 (st_direction t) (st_decomposition t)))))))).
+
+(* the executable instance (extracted; tied to the code by the op strong_decompose_full) *)
+Definition strong_decompose_full : strong_task -> sresult (list problem) :=
+  strong_decompose_full_fuel classic_fuel.
 
 (* EXTRACT: sresult strong_decompose_full simp_ht_full simp_classic_full repr_full FULL_CLASSIC_opt *)
